@@ -81,7 +81,15 @@ def v_assume(ex, fr, st, args, ins):
         if not c:
             raise PathDead()
         return None
-    st.pc = st.pc + (c,)
+    def flat(t, out):
+        if z3.is_and(t):
+            for ch in t.children():
+                flat(ch, out)
+        else:
+            out.append(t)
+    parts = []
+    flat(c, parts)
+    st.pc = st.pc + tuple(parts)
     _mirror_assume(ex, c)
     return None
 
